@@ -32,6 +32,10 @@ denotes: multi-line features, lines without ID, Parent references, seqids=
 filter, lines_per_block, loading into a database with records, loading twice;
 records incl. parent_id and get_feature_children are compared.
 
+look-alike values (MC_AnnotDb_twins.cfg): seqids / biotypes / names that differ
+only in letter case (CDS / cds, chr_1 / Chr_1) or exactly at an underscore
+(chr_1 / chrA1, NP_001 / NPx001); the oracle compares strings for equality.
+
 read-only calls beyond the listed property (AnnotDb.tla): a column constrained
 to a list of values, count_distinct, describe / biotype_counts.
 
@@ -820,6 +824,10 @@ def check(run: Run):
             nh = history(run, scratch, "MC_AnnotDb_thorough_hist.cfg", "hist", totals, depth=3, follow_q=6, follow_ops=4, follow_subsets=8)
         # attribute tokens (substring match on the attributes column), two-record databases
         na = history(run, scratch, "MC_AnnotDb_attr.cfg", "attr", totals, depth=1, follow_q=None, follow_ops=None, follow_subsets=None)
+        # values that differ only in letter case or exactly at a '_' (SQL LIKE would confuse them): exact-value
+        # queries, value lists, count_distinct and update(seqids=...) must keep such twins apart
+        nt = history(run, scratch, "MC_AnnotDb_twins.cfg", "twins", totals, depth=1, follow_q=None, follow_ops=None, follow_subsets=None)
+        run.note("emitted_transitions_twins", nt)
         # code -> spec: recorded random call sequences validated by Trace_AnnotDb.tla
         import trace_C17
 
